@@ -12,6 +12,7 @@ import (
 	"github.com/virus-evolution/gofasta/pkg/genbank"
 	"github.com/virus-evolution/gofasta/pkg/gff"
 	"github.com/virus-evolution/gofasta/pkg/variants"
+	"github.com/virus-evolution/gofasta/pkg/vhook"
 )
 
 // Variants annotates amino acid, insertion, deletion, and nucleotide (anything outside of codons with an amino acid change)
@@ -208,6 +209,7 @@ func getVariantsSam(cdsregions []variants.Region, intregions []int, cAlignPair c
 		}
 
 		// and we're done
+		vhook.Jitter("sam.getVariantsSam", pair.idx)
 		cVariants <- AS
 	}
 }
